@@ -432,8 +432,8 @@ func (g gen) payloadSize(m int) int {
 		return 2*m + r.Intn(2)
 	case 6:
 		k := 3 + r.Intn(40)
-		if k*m > 200000 {
-			return 200000 + r.Intn(3)
+		if k*m > 70000 {
+			return 70000 + r.Intn(3)
 		}
 		return k*m + r.Intn(m+1)
 	default:
@@ -554,7 +554,7 @@ func (g gen) chunkings(stream []byte, frs []drpcwire.Frame, few bool) map[string
 	var rnd []int
 	top := 1 + r.Intn(300)
 	if len(stream) > 20000 {
-		top = 1000 + r.Intn(9000)
+		top = 4000 + r.Intn(16000)
 	}
 	for rem := len(stream); rem > 0; {
 		n := 1 + r.Intn(1+r.Intn(top))
@@ -1049,6 +1049,22 @@ func Run(o *corr.Out) {
 		}
 	}
 
+	// Writer.WritePacket (one done frame, no splitting) keeps every field, the control bit included
+	for _, kind := range []uint8{0, 1, 4, 9, 63} {
+		for _, ctl := range []bool{false, true} {
+			ps := []pk{{sid: 1, mid: 1, kind: 2, data: []byte("x")}, {sid: 1, mid: 2, kind: kind, ctl: ctl, data: g.payload(r.Intn(300))}, {sid: 2, mid: 1, kind: 5}}
+			stream := newEmit(ps, -1, 1, true)
+			o.Case(fmt.Sprintf("c18.emit ver=new n=-1 pkts=%s", pktsStr(ps)), showData(stream), true)
+			oldStr, nw := c.read(stream, "", 0, nil, 0, true)
+			want := readRes{pkts: ps, err: "transport:0"}
+			if nw.newStr() != want.newStr() || oldStr != want.minusControlStr() {
+				o.Oracle("new-roundtrip", fmt.Sprintf("WritePacket kind=%d ctl=%v", kind, ctl), clipS(nw.newStr())+" ||| v0.0.17: "+clipS(oldStr))
+			} else {
+				o.OracleOK("new-roundtrip")
+			}
+		}
+	}
+
 	// ---- 3. a soft-cancel control packet at every position of a sequence (and unknown control kinds)
 	for i := 0; i < 8*scale; i++ {
 		n := splitSizes[r.Intn(len(splitSizes))]
@@ -1151,8 +1167,34 @@ func Run(o *corr.Out) {
 		} else {
 			o.OracleOK("new-emits-wellformed")
 		}
-		oldStr, _ := c.checkStream(stream, "", frs, 0, "newstream", true)
+		oldStr, nwS := c.checkStream(stream, "", frs, 0, "newstream", true)
 		c.oldEndpointUndisturbed(oldStr, connStr(conn))
+		// the only thing the stream layer hides from a v0.0.17 peer is the soft cancel
+		nK, bad := 0, ""
+		for _, s := range conn {
+			for _, o := range s.ops {
+				if o.typ == 'K' {
+					nK++
+				}
+			}
+		}
+		nCtl := 0
+		for _, p := range nwS.pkts {
+			if p.ctl {
+				nCtl++
+				if p.kind != 4 || len(p.data) != 0 {
+					bad = fmt.Sprintf("control packet of kind %d with %d payload bytes", p.kind, len(p.data))
+				}
+			}
+		}
+		if nCtl > nK {
+			bad = fmt.Sprintf("%d control packets for %d SendCancel calls", nCtl, nK)
+		}
+		if bad != "" {
+			o.Oracle("only-soft-cancel-is-hidden", fmt.Sprintf("split=%d conn=%s", split, clipS(connStr(conn))), bad)
+		} else {
+			o.OracleOK("only-soft-cancel-is-hidden")
+		}
 
 		// v0.0.17 stream layer
 		oconn := g.conn(true, split)
@@ -1365,7 +1407,10 @@ func (c checker) limits() {
 		for _, ctl := range []byte{0x05, 0x85} {
 			n := total - 6
 			stream, sp := build([]part{{hdr(ctl, 1, 1, n), n, 0x61}, tail})
-			for _, sizes := range [][]int{nil, {70000, 1 << 30}} {
+			for i, sizes := range [][]int{nil, {70000, 1 << 30}} {
+				if i > 0 && ctl != 0x05 {
+					continue
+				}
 				oldStr, nw := c.read(stream, sp, 0, sizes, 0, true)
 				o.Stat(fmt.Sprintf("limit:frame=%d:old=%s:new=%s", total, errOf(oldStr), nw.err))
 				within := total <= oldMaxTok
@@ -1377,6 +1422,34 @@ func (c checker) limits() {
 				} else {
 					o.OracleOK("old-reads-new")
 				}
+			}
+		}
+	}
+	// the DEFAULT split size of the current stream layer keeps every frame of a large message (3 MiB)
+	// within the v0.0.17 token limit
+	{
+		msg := bytes.Repeat([]byte{0x63}, 3<<20)
+		conn := []streamScript{{sid: 1, ops: []op{{typ: 'W', kind: 2, data: msg}, {typ: 'C'}}}}
+		stream, perr := runNewConn(conn, 0)
+		if perr != "" {
+			o.Oracle("no-crash-no-hang", "3 MiB message, default split", perr)
+		} else {
+			o.Case("c18.stream ver=new split=0 conn="+connStr(conn), showData(stream), true)
+			frs := parseFrames(stream)
+			// compact request line: header bytes in hex, payload as a run
+			var ss []string
+			for _, fr := range frs {
+				e := drpcwire.AppendFrame(nil, fr)
+				ss = append(ss, hex.EncodeToString(e[:len(e)-len(fr.Data)]))
+				if len(fr.Data) > 0 {
+					ss = append(ss, fmt.Sprintf("%dx%02x", len(fr.Data), fr.Data[0]))
+				}
+			}
+			oldStr, nw := c.read(stream, strings.Join(ss, ","), 0, []int{1 << 19, 1 << 30}, 0, true)
+			if !framesWithin(frs, oldMaxTok) || oldStr != nw.minusControlStr() || len(nw.pkts) != 2 {
+				o.Oracle("old-reads-new", "class=default-split 3 MiB message through the current stream layer", clipS(oldStr)+" ||| "+clipS(nw.minusControlStr()))
+			} else {
+				o.OracleOK("old-reads-new")
 			}
 		}
 	}
